@@ -136,6 +136,7 @@ def worker(args):
                 run_one(part, sess, P, placed, eol, opts, "%d comments in random gaps" % len(placed), open_ids, known_classes)
         except (ServerDied, Timeout, FrameError) as e:
             feat.died(part, e, "formatting request", {"kind": "doc", "text": layout.render(P.index(), eol)}, sess)
+    feat.report(part)
     sess.kill()
     return part
 
